@@ -29,7 +29,7 @@ structure Cfg where
   /-- which variant of the "limit already at the stop point" early return the code under test has
   (probed by the adapter on a fixed three-call scenario): `false` = return early whenever the limit
   sits at the stop point (the code as found: finding `stale-limit-at-stop-point`);
-  `true` = only when the base point moved forward (findings/C04-fix-1.diff) -/
+  `true` = only when the pool is empty or the base point moved forward (findings/C04-fix-1.diff) -/
   guarded : Bool := false
   deriving Repr, Inhabited
 
@@ -84,7 +84,7 @@ def compute (c : Cfg) (s : St) (force : Bool) : St × Bool :=
   | some b =>
     let pb := s.prevBase.getD b
     let s := { s with prevBase := some pb }
-    if !force && s.limit.isSome && (b == pb || (s.limit == c.stop && (!c.guarded || b > pb))) then (s, false)
+    if !force && s.limit.isSome && (b == pb || (s.limit == c.stop && (!c.guarded || s.pool.isEmpty || b > pb))) then (s, false)
     else
       let pts := if !force && !s.prevPts.isEmpty && b == pb then s.prevPts else collect c b
       let l := capStop c (addOff s.maxOff (pick c b pts))
